@@ -28,6 +28,7 @@ type Profile struct {
 	Names      []string
 	BigInts    bool
 	IdxPool    []string // fields CreateIndex chooses from
+	NoGenIds   bool     // never leave the _id to clover (several backends must store identical documents)
 }
 
 var baseWeights = map[string]int{
@@ -590,12 +591,15 @@ func (g *Gen) event(op string) E {
 					id = g.smallNum()
 				}
 				invalid = true
-			case g.chance(0.15) || len(free) == 0:
+			case (g.chance(0.15) || len(free) == 0) && !g.P.NoGenIds:
 				if g.chance(0.3) {
 					id = AStr("") // empty id: generated
 				} else {
 					id = nil // no _id: generated
 				}
+			case len(free) == 0:
+				id = AStr(g.someId(c)) // no free id left: a duplicate
+				invalid = true
 			default:
 				id = AStr(free[0])
 				used = append(used, free[0])
